@@ -16,13 +16,13 @@ Diag(what, detail) == PrintT("DIAG " \o ToJson([l |-> 0, cls |-> "IMPL", what |-
 A == Stats[s]
 Verdict ==
     /\ IF A.peak > 1 THEN Diag("peak-error", [set |-> s, peak |-> A.peak]) ELSE TRUE
-    /\ IF \E p \in 1..64 : 100 * A.se2[p] > 6 * A.n
+    /\ IF \E p \in 1..64 : A.se2[p] > (6 * A.n) \div 100          \* 100 x > y  <=>  x > y div 100 (no overflow for huge errors)
        THEN Diag("position-mean-square-error", [set |-> s, n |-> A.n, se2 |-> A.se2]) ELSE TRUE
-    /\ IF 100 * SumSeq(A.se2) > 2 * 64 * A.n
+    /\ IF SumSeq(A.se2) > (2 * 64 * A.n) \div 100
        THEN Diag("overall-mean-square-error", [set |-> s, n |-> A.n, total |-> SumSeq(A.se2)]) ELSE TRUE
-    /\ IF \E p \in 1..64 : 1000 * Abs(A.se[p]) > 15 * A.n
+    /\ IF \E p \in 1..64 : Abs(A.se[p]) > (15 * A.n) \div 1000
        THEN Diag("position-mean-error", [set |-> s, n |-> A.n, se |-> A.se]) ELSE TRUE
-    /\ IF 125 * Abs(SumSeq(A.se)) > 12 * A.n
+    /\ IF Abs(SumSeq(A.se)) > (12 * A.n) \div 125
        THEN Diag("overall-mean-error", [set |-> s, n |-> A.n, total |-> SumSeq(A.se)]) ELSE TRUE
     /\ PrintT("VERDICT " \o ToJson([set |-> s, n |-> A.n, peak |-> A.peak, sumsq |-> SumSeq(A.se2), sum |-> SumSeq(A.se)]))
 Inv == Verdict
